@@ -174,8 +174,8 @@ Global Arguments view_options_enter : simpl never.
 Global Arguments view_options_exit : simpl never.
 Global Arguments timeit_enter : simpl never.
 Global Arguments timeit_exit : simpl never.
-Global Arguments contextual_enter : simpl never.
-Global Arguments contextual_exit : simpl never.
+Global Arguments contextual_scope_enter : simpl never.
+Global Arguments contextual_scope_exit : simpl never.
 Global Arguments detour_enter : simpl never.
 Global Arguments detour_exit : simpl never.
 Global Arguments dyn_enter : simpl never.
